@@ -244,13 +244,19 @@ theorem Deribit.valueLoop_fst (c : TokenCfg) (book : List Instr) (ps : List (Str
       simp only [exact_num, NumCtx.exact_add, NumCtx.exact_mul]
       rw [ih]; simp [Deribit.markValue, hsome]; ring
 
-/-- **equity = cash + positions at mark** on an open bar (exact arithmetic) -/
-theorem C15_equity (c : TokenCfg) (s : DState) (hg : s.onGrid = true) :
+/-- **equity = cash + positions at mark** (exact arithmetic) whenever `get_market_balance` values the holdings afresh:
+    on an open bar (timestamp on the hourly grid), and on any bar when no cached valuation exists (never valued yet, or a
+    trade has dropped the cache) -/
+theorem C15_equity (c : TokenCfg) (s : DState) (hg : s.onGrid = true ∨ s.cache = none) :
     ∃ b, (getMarketBalance DCtx.exact c s).1 = .ok (.balance (some b)) ∧
       b.netValue = s.cash + Deribit.markValue c s.book s.positions ∧ b.cash = s.cash ∧
       b.premium = Deribit.markValue c s.book s.positions := by
   unfold getMarketBalance
-  simp only [hg, if_true]
+  have hc : (s.onGrid || s.cache.isNone) = true := by
+    rcases hg with h | h
+    · simp [h]
+    · simp [h]
+  simp only [hc, if_true]
   refine ⟨_, rfl, ?_, ?_, ?_⟩
   · simp only [freshBalance]
     have := Deribit.valueLoop_fst c s.book s.positions 0 0 0
@@ -361,40 +367,8 @@ theorem C15_sell_market_fills_rounded_amount (c : TokenCfg) (s s' : DState) (r :
     exact C15_market_fill_total bids ck.amount hsz hnn hle
   · simp [reqPrice, hp.1, hp.2] at hrp
 
-/-- **a limit-priced order fills only at a level within ±0.1 % of the requested price** and only if that
-    level shows at least the (rounded) amount -/
-theorem C15_limit_price_within_tolerance (c : TokenCfg) (s s' : DState) (r : Req) (p : Rat) (fills : List Fill) (fee : Rat)
-    (hp : r.priceTok = some p) (h : buy DCtx.exact c s r = (.ok (.trade fills fee), s')) :
-    ∃ ins l, findInstr s.book r.name = some ins ∧ l ∈ normSide DCtx.exact true ins.asks ∧
-      (1 - 1 / 1000) * p < l.price ∧ l.price < (1 + 1 / 1000) * p ∧ roundDec c.tradeExp r.amount ≤ l.size ∧
-      ∀ f ∈ fills, f = ⟨l.price, roundDec c.tradeExp r.amount⟩ := by
-  obtain ⟨_, ck, hck, fills', prem, fee', hfills, _, _, hres, _⟩ := buy_ok h
-  simp only [Res.trade.injEq] at hres
-  obtain ⟨rfl, rfl⟩ := hres
-  obtain ⟨⟨ins0, hfind, hnorm⟩, _, _, hamt, avail, ha, hcase⟩ := checkTx_ok hck
-  have hav : avail = availAsks DCtx.exact ck.ins r.mult := by simpa [availSide] using ha.symm
-  rcases hcase with ⟨hrp, _, _⟩ | ⟨q, l, rest, hrp, hfa, hpr, hle⟩
-  · simp [reqPrice, hp] at hrp
-  · have hq : q = p := by simp [reqPrice, hp] at hrp; exact hrp.symm
-    subst hq
-    have hl : l ∈ findAvailable DCtx.exact q avail := by rw [hfa]; exact List.mem_cons_self
-    unfold findAvailable at hl
-    obtain ⟨hl1, hl2⟩ := List.mem_filter.mp hl
-    replace hl2 := of_decide_eq_true hl2
-    simp only [exact_num, NumCtx.exact_mul, NumCtx.exact_sub, NumCtx.exact_add] at hl2
-    have hme : matchErr = 1 / 1000 := C15_constants.2.2.2.2.2.2.2
-    rw [hme] at hl2
-    have hlasks : l ∈ ck.ins.asks := by
-      rw [hav] at hl1
-      unfold availAsks at hl1
-      split at hl1
-      · exact hl1
-      · exact (List.mem_filter.mp hl1).1
-    refine ⟨ins0, l, hfind, by rw [hnorm] at hlasks; exact hlasks, hl2.1, hl2.2, hamt ▸ hle, ?_⟩
-    intro f hf
-    rw [hfills, hpr] at hf
-    have := deductLimit_mem hf
-    rw [this, hamt]; rfl
+-- limit-priced orders at operation level (one fill of the rounded amount at one level within ±0.1 % of the requested price, buy and
+-- sell, `price_in_token` and `price_in_usd`): Proofs/C15/Limit.lean — `C15_limit_fills_exactly_buy/_sell`, `C15_limit_price_within_tolerance`
 
 /-- **contracts that are not held cannot be sold**: a sell without a position, or for more than the
     holding, is rejected and nothing changes; an accepted sell leaves `held − sold ≥ 0`. -/
@@ -532,12 +506,8 @@ theorem C15_trades_need_open_market (cx : DCtx) (c : TokenCfg) (s : DState) (r :
   constructor <;> simp [buy, sell, h]
 
 
-/-- **fills shrink the visible book for the following orders**: the next operation of the bar runs on the
-    state the previous one left (the book written back by `get_new_order_list`), whatever the outcome -/
-theorem C15_following_order_sees_shrunken_book (cx : DCtx) (c : TokenCfg) (s : DState) (o : Op) (os : List Op) :
-    runOps cx c s (o :: os) = runOps cx c (step cx c s o).2 os := rfl
-
-/-- … and the book an accepted buy leaves is the old book with the asks of that instrument rewritten: the normalised
+/-- the book an accepted buy leaves (what the following orders of the bar are checked against —
+    `C15_following_order_sees_shrunken_book`, Proofs/C15/Follow.lean) is the old book with the asks of that instrument rewritten: the normalised
     side (best first, one level per price) minus the fills -/
 theorem C15_buy_book (cx : DCtx) (c : TokenCfg) (s s' : DState) (r : Req) (fills : List Fill) (fee : Rat)
     (h : buy cx c s r = (.ok (.trade fills fee), s')) :
@@ -582,5 +552,8 @@ example : (sell DCtx.exact ethCfg (buy DCtx.exact ethCfg Deribit.exState (Deribi
 example : BookNonneg Deribit.exState.book := by
   intro i hi; simp [Deribit.exState] at hi; subst hi; simp [Deribit.exInstr]
 example : Deribit.exState.onGrid = true := by decide +kernel
+-- a closed minute of the hour (00:01) without a cached valuation: the second alternative of `C15_equity`
+example : ({ Deribit.exState with now := 361 } : DState).onGrid = false ∧ ({ Deribit.exState with now := 361 } : DState).cache = none := by
+  decide +kernel
 
 end Demeter
